@@ -250,9 +250,16 @@ impl Walrus {
                     }
                 }
             } else {
-                // No persisted tail; init at current active block start
-                persisted_tail = Some((active_block.id, 0));
-                if checkpoint {
+                // No persisted tail; init at the current active block. If this process already
+                // consumed part of that block, start from there and leave the persisted position
+                // alone: writing offset 0 here would forget the entries already delivered.
+                let known_off = if tail_snapshot.0 == active_block.id {
+                    tail_snapshot.1
+                } else {
+                    0
+                };
+                persisted_tail = Some((active_block.id, known_off));
+                if checkpoint && known_off == 0 {
                     if self.should_persist(&mut info, true) {
                         if let Ok(mut idx_guard) = self.read_offset_index.write() {
                             let _ =
